@@ -10,7 +10,9 @@ import traceback
 
 ROOT = os.path.dirname(os.path.dirname(os.path.abspath(__file__)))
 sys.path.insert(0, ROOT)
-sys.path.insert(0, os.environ.get("VERIF_REPO", "/repo"))
+from vf import instr  # noqa: E402
+
+instr.install_plain()
 
 
 def replay_one(item):
